@@ -29,7 +29,7 @@ class AbstractWalkModelDiGraph(ABC):
         subset_constraints_coverage: float = 1,
         optimization_options: dict = None,
         solver_options: dict = {},
-        solve_statistics: dict = {},
+        solve_statistics: dict = None,
     ):
         """
         Parameters
@@ -140,7 +140,8 @@ class AbstractWalkModelDiGraph(ABC):
                 utils.logger.error(f"{__name__}: subset_constraints_coverage must be in the range (0, 1]")
                 raise ValueError("subset_constraints_coverage must be in the range (0, 1]")
 
-        self.solve_statistics = solve_statistics
+        # (a fresh dict per model unless the subclass passes its own: a mutable default would be shared by all models)
+        self.solve_statistics = solve_statistics if solve_statistics is not None else {}
         self.edge_vars = {}
         self.edge_vars_sol = {}
         self.subset_vars = {}
